@@ -42,6 +42,25 @@ DA = "MiniMcmcVerif.DualAvg."
 NU = "MiniMcmcVerif.NUTS."
 
 PROPS = {
+    "C14": {
+        "obligations": ["MiniMcmcVerif.MH.mh_reject_bad", "MiniMcmcVerif.MH.mh_reject_nan", "MiniMcmcVerif.MH.mh_never_bad",
+                        "MiniMcmcVerif.HMC.hmc_never_bad", "MiniMcmcVerif.HMC.hmc_row_mem",
+                        "MiniMcmcVerif.NUTS.nuts_admissible_not_bad", "MiniMcmcVerif.NUTS.nuts_nan_joint",
+                        "MiniMcmcVerif.XR.xr_satisfies_laws", "MiniMcmcVerif.XR.xr_satisfies_lawsE"],
+        "rel32": 3e-3, "abs32": 1e-3, "rel64": 2e-5, "abs64": 2e-6,
+        "timeout": 3000,
+        "level_text": "Theorems for every carrier satisfying an explicit list of IEEE-754 special-value laws (NaN and -inf propagate through +/-, negation, nothing is < NaN or -inf, only -inf is <= -inf): an MH candidate of NaN/-inf density is "
+                      "rejected for every u; an HMC row whose end-of-trajectory density is NaN/-inf stays at x for every draw except ln u = -inf (u = 0, excepted by the property), whatever the energies — divergent trajectories, NaN gradients "
+                      "and overflowing step sizes included — and a row is never a blend; a NUTS point that passes the slice test has a density that is neither NaN nor -inf, and a NaN joint fails both the slice and the divergence test. XR (NaN | -inf | Q | +inf) "
+                      "satisfies the laws. Tied to the code by running MH/HMC/NUTS on targets with boundaries and NaN regions, proposals leaving the support and step sizes up to 1e300, judging every visited state with the harness's own f64 "
+                      "copy of the target, under a watchdog; HMC rows and NUTS transitions are additionally replayed against the models; the law table is evaluated on native f32/f64 on every run.",
+        "level_note": "Trusted: hardware floats satisfy the listed laws (spot-checked natively each run). Absence of hangs/panics is observed (watchdog, catch_unwind), not proved; find_reasonable_epsilon need not terminate on improper flat "
+                      "targets (outside the quantifier). 'Non-finite coordinates' follows under the hypothesis that the target maps a non-finite position to NaN/-inf density (true of the targets used).",
+        "rule": "targets: half-line exponential x Gaussian (support x0 > 0, -inf outside), log-box (NaN outside (0,1)^d), quartic; starts one step inside the boundary half of the time; MH with proposal std log-uniform (0.05,50), 300 steps; "
+                "HMC with eps in {0.01-0.5, 0.5-100, 1e3-1e15, 1e30/1e38/1e300}, L 1-10, 1-6 chains, 25 steps; NUTS with injected step sizes up to 1e300, 20 steps; f32 and f64; distinct by (sampler, type, target, dim, seed)",
+        "trusted": ["IEEE-754 special-value laws hold for native f32/f64 (law table evaluated each run)"],
+        "assumptions": ["acceptance draws equal to exactly 0 are excepted (property)"],
+    },
     "C03": {
         "obligations": [NU + n for n in ["buildTree_succ", "bt_stop", "bt_go", "buildTree_counts", "buildTree_prime_mem", "buildTree_sel_suffix", "buildTree_prime_admissible",
                                          "buildTree_s_no_divergence", "buildTree_size", "buildTree_leaves_chain", "buildTree_alpha_range", "doubling_pos",
